@@ -133,7 +133,7 @@ def run_native(scenario, flavour=None, timeout=120, keep=False):
         shim = scenario.get("shim")
         steps = [dict(s) for s in scenario["steps"]]
         if not shim:
-            rc, out, err = _exec(exe, {"steps": steps}, root, timeout=timeout)
+            rc, out, err = _exec(exe, {"steps": steps, "watchdog_s": scenario.get("watchdog_s", 12)}, root, timeout=timeout)
             obs, final = _parse_obs(out)
             if rc not in (0, 3) and final is None:
                 obs.append({"outcome": "abort", "returncode": rc, "stderr": err.decode("utf-8", "replace")[-400:]})
